@@ -29,7 +29,7 @@ ASSUMPTIONS = ['python-sat is absent: the solver is the self-checking z3-backed 
 REQUIRED = {'mon:find_circuit.returned': 60, 'mon:find_circuit.no_solution': 20, 'planted': 50, 'brute_force_decided': 30,
             'constraint:fix_both': 10, 'constraint:fix_first': 10, 'constraint:fix_second': 10, 'constraint:fix_type': 10,
             'constraint:forbid_wire': 10, 'need_normalized': 10, 'basis:custom': 5, 'basis:str': 10, 'time_limit_used': 3,
-            'dont_cares': 30}
+            'dont_cares': 30, 'continued_after_refused_request': 15}
 
 CUR = {'ctx': None, 'case': None}
 REG = {}      # id(finder) -> record
@@ -388,6 +388,28 @@ def gen_case(rng):
             cons.append(['fix', g, a, b if rng.random() < 0.6 else None, t])
             case['planted'] = None
             case['free_type'] = True
+    # requests the library must refuse (wrong operand order, equal operands, a predecessor that is not before the gate,
+    # a wire that does not go forward), with a gate type some of the time: the caller catches the error and goes on
+    # with the same finder - a refused request must leave no trace
+    if r >= 1 and n + r >= 3 and rng.random() < 0.35:
+        for _ in range(rng.randint(1, 2)):
+            g = rng.randrange(n, n + r)
+            kind = rng.choice(['swapped', 'equal', 'late', 'late_first', 'backward_wire'])
+            t = rng.choice(OPS16) if rng.random() < 0.7 else None
+            if kind == 'swapped' and g >= 2:
+                a, b = sorted(rng.sample(range(g), 2))
+                bad = ['fix', g, b, a, t]
+            elif kind == 'equal' and g >= 1:
+                a = rng.randrange(g)
+                bad = ['fix', g, a, a, t]
+            elif kind == 'late':
+                bad = ['fix', g, rng.randrange(g) if g else None, rng.randrange(g, n + r + 1), t]
+            elif kind == 'late_first':
+                bad = ['fix', g, rng.randrange(g, n + r + 1), None, t]
+            else:
+                bad = ['forbid', rng.randrange(g, n + r), g]
+            cons.insert(rng.randrange(len(cons) + 1), bad)
+            case['refusable_requests'] = True
     case['constraints'] = cons
     return case
 
@@ -449,6 +471,8 @@ def check_case(case, ctx):
                     ctx.count('constraint:forbid_wire')
             except Exception as e:
                 ctx.count('constraint_rejected:' + type(e).__name__)
+                if case.get('refusable_requests'):
+                    ctx.count('continued_after_refused_request')
         if case['planted']:
             PLANTED[id(finder)] = case['planted']
             ctx.count('planted')
